@@ -98,7 +98,8 @@ def unwrap(func):
     return f, kw, chain
 
 
-FINALIZE_KIND = {"_mean_finalize": "mean", "_var_finalize": "var", "_std_finalize": "std", "_pick_second": "second"}
+FINALIZE_KIND = {"_mean_finalize": "mean", "_var_finalize": "var", "_std_finalize": "std", "_pick_second": "second",
+                 "_range_finalize": "range", "_rms2_finalize": "ratio"}
 
 
 def fname(f):
